@@ -27,7 +27,8 @@
      SingleDial        concurrent first packets: one dial, one endpoint
      NeverHandOutBad   what Get returns is not dead, not a cached failure, and not invalidated before carrying traffic
      ClosedOnce        every transport is closed at most once; after Reset every dialled endpoint is closed exactly once
-     KernelEntries     retain[o][t] = 1 iff a live endpoint currently owned by o registered t (also across adoption) *)
+     KernelEntries     retain[o][t] = 1 iff a live endpoint currently owned by o registered t (also across adoption)
+     DrainTickets      (on the real tracker) a generation's drain count = the live endpoints it owns, Tickets(ep) *)
 EXTENDS Integers, Sequences, FiniteSets, TLC, Json
 
 CONSTANTS Keys, Owners, Tuples, MaxEp, NatT, FailT, MaxEvents
@@ -56,8 +57,11 @@ Retire(e, r, p, i) ==        \* dead, out of the pool (if it is still the pool's
   LET c == CloseEp([e EXCEPT ![i].dead = TRUE], r, i)
   IN <<c[1], c[2], [k \in Keys |-> IF p[k] = i THEN NoEp ELSE p[k]]>>
 
+\* drain tickets: every control-plane generation counts the live endpoints it owns (one ticket taken at the dial, handed over
+\* on adoption, given back when the endpoint is closed); a reload waits for the retiring generation's count to reach zero
+Tickets(e) == [o \in Owners |-> Cardinality({i \in 1..MaxEp : e[i].st = "live" /\ e[i].closed = 0 /\ e[i].owner = o})]
 Obs == [dials |-> dials', closed |-> [i \in 1..MaxEp |-> ep'[i].closed], retain |-> retain',
-        pool |-> pool']
+        pool |-> pool', tickets |-> Tickets(ep')]
 Log(ev, k, e, x, res) == hist' = Append(hist, [ev |-> ev, k |-> k, e |-> e, x |-> x, res |-> res, obs |-> Obs])
 
 \* adoption of endpoint i by owner o: its kernel entries move to the new owner
